@@ -9,7 +9,7 @@ SPEC = dict(
                "number of set positions = word popcount after every operation (invert: capacity - n); indices < capacity; "
                "deserialize(serialize f) = Ok f for every well-formed filter and every reachable filter is well formed. The model is "
                "tied to the crate by running both on the same generated histories (sizes 1..2^16 bits incl. non-multiples of 64, "
-               "1..16 hashes, several seeds, i64 items, up to 6 filters per case, debug + release) and comparing every observation "
+               "1..16 hashes, several seeds, items of type i64, &str / String (lengths 0..100 incl. 31/32/33/63/64/95), (u64,u64), (u64,u64,u64,u64), &[u8], u128 - so that XxHash64 is fed by several and by long write calls -, up to 6 filters per case, debug + release) and comparing every observation "
                "(contains, bits_used, capacity, full serialized images, deserialization of foreign/dirty/damaged images), and the "
                "property itself (a position set kept independently of the model) is evaluated on the crate's observations.",
     level_note="No theorem for the statistical half of C09 (measured false-positive rate of with_accuracy(n, p) near p): it is a claim "
@@ -20,8 +20,9 @@ SPEC = dict(
                "function bodies (>> 1, >> 6, & 63, loop start 1) are not translated, they are covered by the correspondence check.",
     technique="Coq proof by representation invariant (Rep f S: filter f denotes position set S) over an inductive type of histories "
               "+ codec round-trip proof + differential correspondence model vs crate + Spec-level oracle",
-    trusted=["digests h0, h1 are supplied by tools/pyref.py xxh64 (reference XXH64, cross-checked in C16); the crate hashes the i64 item "
-             "itself (8 little-endian bytes through std's Hash impl)",
+    trusted=["digests h0, h1 are supplied by tools/pyref.py xxh64 (reference XXH64, cross-checked in C16); the crate hashes the item "
+             "itself through std's Hash impl; the byte streams assumed for it: i64 8 LE bytes; str/String bytes then 0xff (two writes); "
+             "u64 tuples 8 LE bytes per component (one write each); &[u8] 8-byte LE length then the bytes; u128 16 LE bytes",
              "the false-positive-rate claim is statistical and has no theorem (DESIGN.md section 9); measured only",
              "with_accuracy's ln-based sizing has no Coq counterpart; the generator recomputes it with Python's math.log"],
     assumptions=["configuration within the builder's documented ranges (1 <= num_bits <= MAX_NUM_BITS, 1 <= num_hashes <= 32767, u64 seed)",
